@@ -34,6 +34,21 @@ def _captures_unperturbed(cj, t, part):
     return False
 
 
+def _captured_inverse(cj, t):
+    """t is an upvar of the column closure whose value in compute_jacobian is `<something>.inverse()`"""
+    t = strip(t)
+    if not (isinstance(t, tuple) and t[0] == 'fld' and util.is_param(strip(t[1]), 1)):
+        return False
+    name = str(t[2]).lstrip('*&')
+    for l, n in cj.names.items():
+        if n == name:
+            whole = [d for d in cj.defs().get(l, []) if d[4]]
+            if len(whole) == 1:
+                dt = strip(cj._def_term(whole[0]))
+                return isinstance(dt, tuple) and dt[0] == 'call' and cname(dt[1]).split('::')[-1] == 'inverse'
+    return False
+
+
 def run(ctx):
     prog = ctx.prog
     ctx.rule('R15.1', 'column i: joints copy with slot i += epsilon; rows 0..3 = (P_pert - P_cur)/eps; rows 3..6 = scaled_axis(R_pert * R_cur^-1)/eps; stored at (0,i),(3,i), i in 0..6')
@@ -83,8 +98,23 @@ def run(ctx):
     rv = [strip(x[0]) for x in c.return_values()]
     okp = oko = False
     fp = fo = None
-    if len(rv) == 1 and isinstance(rv[0], tuple) and rv[0][0] == 'agg' and len(rv[0]) == 4:
-        dp, do = strip(rv[0][2]), strip(rv[0][3])
+    packed = None
+    if len(rv) == 1 and isinstance(rv[0], tuple) and rv[0][0] == 'call' and cname(rv[0][1]).split('::')[-1] == 'new' and len(rv[0]) == 8:
+        # the column packed at once: Vector6::new(l.x, l.y, l.z, a.x, a.y, a.z)
+        def coord(a):
+            a = strip(a)
+            if isinstance(a, tuple) and a[0] == 'fld' and a[2] in ('x', 'y', 'z'):
+                base = strip(a[1])
+                if isinstance(base, tuple) and base[0] == 'call' and cname(base[1]) == 'Deref::deref':
+                    base = strip(base[2])
+                return base, a[2]
+            return None, None
+        cs = [coord(a) for a in rv[0][2:]]
+        if [k for b_, k in cs] == ['x', 'y', 'z', 'x', 'y', 'z'] and cs[0][0] is not None and cs[0][0] == cs[1][0] == cs[2][0] and \
+                cs[3][0] is not None and cs[3][0] == cs[4][0] == cs[5][0]:
+            packed = (cs[0][0], cs[3][0])
+    if packed is not None or (len(rv) == 1 and isinstance(rv[0], tuple) and rv[0][0] == 'agg' and len(rv[0]) == 4):
+        dp, do = packed if packed is not None else (strip(rv[0][2]), strip(rv[0][3]))
         fp, fo = show(dp, maxdepth=6), show(do, maxdepth=7)
         pert = strip(c.call_term(fwd_calls[0][1], (fwd_calls[0][0], None))) if fwd_calls else None
         # the differences are divided by the very step the joint was moved by (a clamped or otherwise different step on one
@@ -98,13 +128,31 @@ def run(ctx):
             sa = strip(do[2])
             if isinstance(sa, tuple) and sa[0] == 'call' and cname(sa[1]).endswith('::scaled_axis'):
                 w = algebra.word(sa[2])
-                oko = len(w) == 2 and w[0][1] == 1 and w[1][1] == -1 and mir.contains(w[0][0], lambda x: x == algebra.canon(pert)) and \
+                # the inverse of the current orientation may be taken once outside the closure and captured
+                e2 = (-w[1][1] if _captured_inverse(cj, w[1][0]) else w[1][1]) if len(w) == 2 else None
+                oko = len(w) == 2 and w[0][1] == 1 and e2 == -1 and mir.contains(w[0][0], lambda x: x == algebra.canon(pert)) and \
                     'rotation' in show(w[0][0], maxdepth=5) and _captures_unperturbed(cj, w[1][0], 'rotation')
                 fo = algebra.show_word(w, lambda a: show(a, maxdepth=3))
     ctx.check(okp, 'R15.1', 'position-rows', c.where(0), c.path, 'position rows must be (P_perturbed - P_current) / epsilon', found=fp, detail=fp or '')
     ctx.check(oko, 'R15.1', 'rotation-rows', c.where(0), c.path,
               'rotation rows must be scaled_axis(R_perturbed * R_current^-1) / epsilon (rotation difference in the world frame)', found=fo,
               expected='R_perturbed * R_current^-1', detail=fo or '')
+    if packed is not None:
+        # storage and column range: the matrix is from_columns(&array::from_fn(column closure)) over six columns
+        from .. import census
+        rt = strip(cj.return_term())
+        ok = False
+        found = show(rt, maxdepth=4)
+        if isinstance(rt, tuple) and rt[0] == 'call' and cname(rt[1]).split('::')[-1] == 'from_columns':
+            ff = mir.subterms(rt[2], lambda x: x[0] == 'call' and cname(x[1]) == 'array::from_fn')
+            if len(ff) == 1:
+                cb2, caps2 = util.closure_of_term(prog, ff[0][2])
+                ok = cb2 is c
+        ctx.check(ok, 'R15.1', 'storage', cj.where(0), cj.path,
+                  'column i must receive the position difference at rows 0..3 and the rotation difference at rows 3..6 of the same column', found=found, detail='from_columns(from_fn(column))')
+        ctx.check(census.closure_from_fn_len(c) == 6, 'R15.1', 'all-columns', cj.where(0), cj.path, 'columns must be computed for i in 0..6')
+        _entry_points(ctx, prog, cj)
+        return
     # storage
     views = [(bi, t) for bi, t in cj.calls() if cname(callee_name(t)).endswith('::fixed_view_mut')]
     copies = [(bi, t) for bi, t in cj.calls() if cname(callee_name(t)).endswith('::copy_from')]
